@@ -18,10 +18,10 @@ func init() { register("C09", "exploration", c09) }
 
 // slotDef wires a configuration key to the slot of one package format.
 type slotDef struct {
-	cfg  string                            // configuration key (for reports)
-	slot string                            // name of the slot in the package format
-	set  func(s *gen.Spec, path string)    // writes the script path into the spec
-	mode int64                             // expected member mode (tar based formats)
+	cfg  string                         // configuration key (for reports)
+	slot string                         // name of the slot in the package format
+	set  func(s *gen.Spec, path string) // writes the script path into the spec
+	mode int64                          // expected member mode (tar based formats)
 }
 
 var slotTable = map[string][]slotDef{
